@@ -12,6 +12,7 @@ import (
 	"fmt"
 	"math/big"
 	"os"
+	"runtime"
 	"strconv"
 	"strings"
 	"testing"
@@ -95,4 +96,25 @@ func TestHarness(t *testing.T) {
 		res := dispatch(t, sc)
 		fmt.Fprintf(out, "%d %s %s\n", index, res.verdict, strings.Join(res.vals, " "))
 	}
+}
+
+// libGoroutines counts the goroutines that were started by the library (created by a function of akramarenkov/cqos) and
+// still exist.  Call it after synctest.Wait(): whatever is left then is blocked, not merely on its way out.
+func libGoroutines() int {
+	buf := make([]byte, 1<<20)
+	for {
+		n := runtime.Stack(buf, true)
+		if n < len(buf) {
+			buf = buf[:n]
+			break
+		}
+		buf = make([]byte, 2*len(buf))
+	}
+	count := 0
+	for _, g := range strings.Split(string(buf), "\n\n") {
+		if strings.Contains(g, "created by github.com/akramarenkov/cqos") {
+			count++
+		}
+	}
+	return count
 }
